@@ -1,15 +1,60 @@
 # per-property configuration for bin/check
-COMMON_TB = []
+#   lean_target : lake targets whose theorems are the proof obligations (Props.* modules; they import Proofs/*, Gen/*)
+#   gens        : harness observation generators piped into modeldrv (model vs implementation correspondence)
+#   searches    : implementation-level failing-input searches
+#   shards      : processes per generator/search at each tier
+FLOAT_TB = "modelled, not verified: float evaluation inside SolarUtil.GetJulianDay / NewSolarFromJulianDay (the model is exact-integer; tied by bit-exact sweeps and the 2^-27-day tolerance check)"
+ASTRO_TB = "modelled, not verified: ShouXingUtil (new-moon / solar-term series, floating point): its outputs enter as the per-year oracle table regenerated from the current code on this run (Gen/Astro), kernel-checked for well-formedness (Gen/AstroK)"
+STD_TB = "Go standard library behaviour (fmt.Sprintf, strings.Compare/Index/Replace, container/list, maps) modelled by documented semantics"
+
 PROPS = {
-    "C04": {
-        "lean_target": ["Props.C04"],
-        "gens": ["gen-civil", "gen-jd"],
-        "searches": ["search-C04"],
-        "shards": {"quick": 8, "thorough": 16},
-        "trusted_base": [
-            "modelled, not verified: float evaluation inside SolarUtil.GetJulianDay / NewSolarFromJulianDay (the model is exact-integer; tied by bit-exact sweeps over family J and by the 2^-27-day tolerance check)",
-        ],
-        "assumptions": ["years 1..9998; Go int modelled as unbounded Int"],
-        "open_obligations": [],
-    },
+    "C01": {"lean_target": ["Props.C01"], "gens": ["gen-ly", "gen-lunar"], "searches": ["search-C01"],
+            "trusted_base": [ASTRO_TB, STD_TB]},
+    "C02": {"lean_target": ["Props.C02"], "gens": ["gen-ly"], "searches": ["search-C02"],
+            "trusted_base": [ASTRO_TB, "independent Meeus new-moon / solar-longitude computation in the harness is an oracle definition (validation, not proof)"],
+            "open_obligations": ["month begins on the civil day of the true new moon (1645..3000): validated against the independent ephemeris in search-C02, not a theorem",
+                                 "ICU comparison: ICU is not installed; not checked"]},
+    "C03": {"lean_target": ["Props.C03"], "gens": ["gen-ly", "gen-terms"], "searches": ["search-C03"],
+            "trusted_base": [ASTRO_TB, STD_TB],
+            "open_obligations": ["term instant = root of the apparent solar longitude: validated in search-C03 against the library's own ephemeris (hook VerifSaLon), not a theorem"]},
+    "C04": {"lean_target": ["Props.C04"], "gens": ["gen-civil", "gen-jd"], "searches": ["search-C04"],
+            "trusted_base": [FLOAT_TB]},
+    "C05": {"lean_target": ["Props.C05"], "gens": ["gen-lunar", "gen-ec"], "searches": ["search-C05"],
+            "trusted_base": [ASTRO_TB, STD_TB]},
+    "C06": {"lean_target": ["Props.C06"], "gens": ["gen-ly"], "searches": ["search-C06"],
+            "trusted_base": [ASTRO_TB]},
+    "C07": {"lean_target": ["Props.C07"], "gens": ["gen-box", "gen-civil"], "searches": ["search-C07"],
+            "trusted_base": [ASTRO_TB, FLOAT_TB]},
+    "C08": {"lean_target": ["Props.C08"], "gens": ["gen-alm", "gen-ec", "gen-terms", "gen-week"], "searches": ["search-C08"],
+            "trusted_base": [ASTRO_TB, STD_TB],
+            "open_obligations": ["accessors outside the modelled set are covered by the reflection sweep of search-C08 only (counted in search_stats.methods)"]},
+    "C09": {"lean_target": ["Props.C09"], "gens": [], "searches": ["search-C09"],
+            "trusted_base": ["Go memory model and scheduler are outside the model: data races / real blocking are exercised by search-C09 (history sweeps; goroutine stress under -race), not proved",
+                             "the protocol theorem assumes LunarYear.compute does not panic (NewLunarYear unlocks without defer)"]},
+    "C10": {"lean_target": ["Props.C10"], "gens": ["gen-bazi"], "searches": ["search-C10"],
+            "trusted_base": [ASTRO_TB, "time.Now() is a parameter (endYear) of the model"],
+            "open_obligations": ["completeness fails when a Jie instant lies inside the queried two-hour slot (known finding); completeness elsewhere is checked by search-C10, not proved"]},
+    "C11": {"lean_target": ["Props.C11"], "gens": ["gen-alm", "gen-ec", "gen-terms"], "searches": ["search-C11"],
+            "trusted_base": [ASTRO_TB, STD_TB]},
+    "C12": {"lean_target": ["Props.C12"], "gens": ["gen-ec"], "searches": ["search-C12"],
+            "trusted_base": [ASTRO_TB]},
+    "C13": {"lean_target": ["Props.C13"], "gens": ["gen-terms"], "searches": ["search-C13"],
+            "trusted_base": [ASTRO_TB, STD_TB]},
+    "C14": {"lean_target": ["Props.C14"], "gens": ["gen-holiday"], "searches": ["search-C14"],
+            "trusted_base": [STD_TB]},
+    "C15": {"lean_target": ["Props.C15"], "gens": ["gen-week"], "searches": ["search-C15"],
+            "trusted_base": [FLOAT_TB]},
+    "C16": {"lean_target": ["Props.C16"], "gens": ["gen-terms", "gen-alm"], "searches": ["search-C16"],
+            "trusted_base": [ASTRO_TB, STD_TB]},
+    "C17": {"lean_target": ["Props.C17"], "gens": ["gen-alm", "gen-box"], "searches": ["search-C17"],
+            "trusted_base": [ASTRO_TB]},
+    "C18": {"lean_target": ["Props.C18"], "gens": ["gen-alm", "gen-ec"], "searches": ["search-C18"],
+            "trusted_base": [ASTRO_TB, STD_TB]},
+    "C19": {"lean_target": ["Props.C19"], "gens": ["gen-fmt", "gen-alm"], "searches": ["search-C19"],
+            "trusted_base": [STD_TB]},
+    "C20": {"lean_target": ["Props.C20"], "gens": ["gen-sfest"], "searches": ["search-C20"],
+            "trusted_base": [STD_TB]},
 }
+for _p in PROPS.values():
+    _p.setdefault("shards", {"quick": 8, "thorough": 16})
+    _p.setdefault("assumptions", ["civil years 1..9998 (lunar years 0..9999); Go int modelled as unbounded Int"])
